@@ -126,6 +126,21 @@ func c08Build(w *simrt.Stream, kind string, n int, preload bool, limit, passes i
 		}
 		files["/ammo/grpc.json"] = []byte(b.String())
 		conf = map[string]interface{}{"type": "grpc/json", "file": "/ammo/grpc.json", "limit": limit, "passes": passes}
+		if w.Draw(3) == 0 {
+			// chosencases on the grpc/json provider: only the listed tags are delivered, limit and passes count those
+			var cc []interface{}
+			for i := 0; i < n; i++ {
+				if w.Draw(2) == 0 {
+					cc = append(cc, fmt.Sprintf("t%d", i))
+				}
+			}
+			if len(cc) == 0 {
+				cc = append(cc, "t0")
+			}
+			conf["chosencases"] = cc
+			entries = len(cc)
+			desc = fmt.Sprintf("chosencases=%v", cc)
+		}
 	case "http/scenario", "grpc/scenario":
 		// n entries = sum of weight/gcd over 1..3 scenarios
 		k := 1 + w.Draw(3)
